@@ -111,4 +111,34 @@ def compare_dops(ctx, lines, impl_answers, stream="dops", sample=None, timeout=2
             j = next((j for j in range(min(len(ta), len(tm))) if ta[j] != tm[j]), min(len(ta), len(tm)))
             ctx.disagree(stream, lines[i], "op %d: %s" % (j, str(tm[j:j + 1])[:400]), "op %d: %s" % (j, str(ta[j:j + 1])[:400]))
             nd += 1
+    nd += compare_ldops(ctx, lines, impl_answers, idx, stream, timeout)
+    return nd
+
+LIT_MAX_LINE = 60000      # the literal model walks 64-bit word lists; very long histories are left to the abstract model
+
+def compare_ldops(ctx, lines, impl_answers, idx, stream, timeout):
+    """layer DL: the same op histories on the LITERAL Decompressor model (Qco.DecompLit: BitWords/BitReader words,
+    literal metadata parser, literal NumDecompressor, literal ChunkBodyDecompressor/Decompressor glue — proved to refine
+    the abstract operational model in C08d), compared token by token with the real Decompressor"""
+    pick = [i for i in idx if lines[i].startswith("dops ") and len(lines[i]) <= LIT_MAX_LINE]
+    if len(pick) > 1500:
+        step = len(pick) / 1500.0
+        pick = [pick[int(k * step)] for k in range(1500)]
+    if not pick:
+        return 0
+    lans = C.driver(["l" + lines[i] for i in pick], timeout=timeout)
+    nd = 0
+    for i, m in zip(pick, lans):
+        if m in ("timeout", "died") or m.startswith("bad-"):
+            ctx.count("literal-model-skipped(" + m[:8] + ")")
+            continue
+        dt = lines[i].split(" ")[1]
+        ta = [(canon_tok(dt, b), k) for b, k in split_tokens(impl_answers[i])]
+        tm = [(canon_tok(dt, b), k) for b, k in split_tokens(m)]
+        ctx.count("literal-model-compared")
+        if ta != tm:
+            j = next((j for j in range(min(len(ta), len(tm))) if ta[j] != tm[j]), min(len(ta), len(tm)))
+            ctx.disagree("l" + stream, lines[i], "op %d: %s" % (j, str(tm[j:j + 1])[:400]), "op %d: %s" % (j, str(ta[j:j + 1])[:400]),
+                         "literal Decompressor model (layer DL) differs from the real Decompressor")
+            nd += 1
     return nd
